@@ -131,7 +131,10 @@ class NotOnCurve(Exception):
     pass
 
 def decodepoint(s):
-    # only the one canonical 32-byte encoding of a point is accepted
+    # only the one canonical 32-byte encoding of a point is accepted. Read
+    # any bytes-like input as its raw bytes, so that the length is measured
+    # in bytes (not in items of e.g. an array('H')).
+    s = bytes(memoryview(s))
     if len(s) != 32:
         raise ValueError("encoded point must be exactly 32 bytes")
     unclamped = int(binascii.hexlify(s[::-1]), 16)
